@@ -151,7 +151,11 @@ class CConc:
         return [self.sn[v][s] for s in self.dom[v]]
 
 
-def _tab_ok(got, want, tol=1e-9):
+TOL = 1e-9 if os.environ.get("VERIF_BACKEND", "numpy") == "numpy" else 1e-6   # torch builds tensors through float32
+
+
+def _tab_ok(got, want, tol=None):
+    tol = tol or TOL
     import numpy as np
     got = np.asarray(got, dtype=float)
     if got.shape != (len(want), len(want[0]) if want else 0):
@@ -198,7 +202,7 @@ def _check_obj(obj, exp, conc):
         except KeyError:
             return "state_names"
         n, d = c["v"]
-        if d == 0 or abs(float(vals[idx]) - n / d) > 1e-9 * max(1.0, abs(n / d)):
+        if d == 0 or abs(float(vals[idx]) - n / d) > TOL * max(1.0, abs(n / d)):
             return "value"
     if exp["kind"] == "cpd" and not _tab_ok(_to_np(obj.get_values()), exp["tab"]):
         return "get_values"
